@@ -171,14 +171,30 @@ def getAbsPath (fs : FS) (src : Option Bytes) (rel : Bytes) : Res (Option (Bytes
       | some a, some r => .ok (some (a, r))
       | _, _ => .ok none
 
-/-- lines 336-353: backslashes to slashes, path mapping, prefix removal -/
+/-- lines 339-345: backslashes of the KEY to slashes, path mapping, prefix removal -/
 def keyPath (cfg : Cfg) (key : Bytes) : Bytes :=
   removePrefix cfg.prefixDir (applyMapping cfg.mapping (bsl key))
 
-/-- lines 336-356. The result is (abs_path, rel_path) as they are when the globs are evaluated. -/
+/-- lines 361-363 (fix 568afd2), right after `get_abs_path`: "Always return results with '/'" —
+the backslashes of the relative path become separators and the path is normalised AGAIN, because a
+backslash may have hidden '.' or '..' segments from the normalisation inside `get_abs_path`;
+`none` = the `?`: the path now escapes through '..' and the key is dropped -/
+def finalRel (rel : Bytes) : Option Bytes := normalizePath (bsl rel)
+
+/-- that step applied to the outcome of `get_abs_path` -/
+def finishPath : Res (Option (Bytes × Bytes)) → Res (Option (Bytes × Bytes))
+  | .panic s => .panic s
+  | .ok none => .ok none
+  | .ok (some (abs, rel)) =>
+    match finalRel rel with
+    | none => .ok none
+    | some r => .ok (some (abs, r))
+
+/-- lines 336-363. The result is (abs_path, rel_path) as they are when the globs are evaluated,
+which is also how they are reported. -/
 def resolveKey (cfg : Cfg) (fs : FS) (key : Bytes) : Res (Option (Bytes × Bytes)) :=
   if cfg.mapping.isSome && (bsl key).isEmpty then .panic "to_lowercase_first"
-  else getAbsPath fs cfg.sourceDir (keyPath cfg key)
+  else finishPath (getAbsPath fs cfg.sourceDir (keyPath cfg key))
 
 /-! ### is_covered (filter.rs) -/
 
@@ -195,13 +211,13 @@ def filterOk (filter : Option Bool) (c : Cov) : Bool :=
   | some true => isCovered c
   | some false => !isCovered c
 
-/-- lines 358-402 for one resolved key -/
+/-- lines 365-405 for one resolved key: the filters run on the final path, which is reported as is -/
 def selectRec (cfg : Cfg) (fs : FS) (abs rel : Bytes) (cov : Cov) : Option Rec :=
   if setMatch cfg.ignore rel then none
   else if !cfg.keep.isEmpty && !setMatch cfg.keep rel then none
   else if cfg.ignoreNotExisting && !fs.exists abs then none
   else if !filterOk cfg.filter cov then none
-  else some ⟨abs, bsl rel, cov⟩
+  else some ⟨abs, rel, cov⟩
 
 /-- the `filter_map` closure (lines 335-403) for one map entry -/
 def rewriteKey (cfg : Cfg) (fs : FS) (kc : Bytes × Cov) : Res (Option Rec) :=
